@@ -46,6 +46,8 @@ type codec struct {
 	altEnc func(v any) ([]byte, error)            // another valid encoding of v (compressed message)
 	extra  func(v any, rep *report)               // type-specific additional checks on an accepted value
 	looseEnc bool                                 // the encoding is text (JSON): null vs [] differences are not compared
+	decArg func(obs string) string                // extra argument of the `dec` op line, taken from the real observation
+	reencKey func(b []byte, name string) string   // failure key when an accepted value cannot be re-encoded (nil: <name>-reencode-fails)
 }
 
 func encBytes(v io.Serializable) ([]byte, error) {
@@ -600,6 +602,8 @@ func initCodecs() {
 		return out, nil
 	}
 	c.jsonOK = func(v any) bool { return v.(*manifest.Manifest).IsValid(util160zero, true) == nil }
+
+	initStoredForms()
 }
 
 // countIdx picks an index < valid (valid entries) or, rarely, an invalid one in [valid, total).
